@@ -106,6 +106,28 @@ int main()
             for (Probe* p : ps) { p->blocked = (p->ret.load() == -1) ? 1 : 0; }
             double t = now_ms(); qr->put(1, seconds(0)); qr->close(); for (Probe* p : ps) p->t_rel = t; }});
     }
+    // ---- B3: get(); close() back to back while a producer is blocked on a full queue, many trials.  Either the producer's item went in
+    //          before close() (queue non-empty at close: CLOSING until drained) or its put() fails; a queue that reports is_closed()
+    //          while it still holds an item has accepted a put after close().
+    {
+        Probe* p = add("close_race_put/trials");
+        launch(p, [p] {
+            int bad = 0, accepted = 0, refused = 0, lost = 0;
+            for (int k = 0; k < 40; ++k) {
+                Q1 q; q.put(1, seconds(0));
+                std::atomic<int> r{-1};
+                std::thread prod([&] { r = q.put(2) ? 1 : 0; });
+                std::this_thread::sleep_for(milliseconds(2 + (k % 3)));
+                int v = 0; q.get(v, milliseconds(0)); q.close();
+                prod.join();
+                if (q.is_closed() && q.size() > 0) ++bad;
+                if (r == 1) { ++accepted; int w = 0; if (!q.get(w, milliseconds(200)) || w != 2) ++lost; } else ++refused;
+            }
+            char buf[160]; std::snprintf(buf, sizeof buf, " trials=40 bad=%d accepted=%d refused=%d lost=%d", bad, accepted, refused, lost);
+            p->extra = buf;
+            return bad == 0 && lost == 0;
+        });
+    }
     // ---- C: close at fill level k of a capacity-3 queue, then drain
     for (int k : {0, 1, 3}) {
         Probe* p = add("drain/fill" + std::to_string(k));
